@@ -15,7 +15,8 @@ func init() {
 		explain: "Decides the structural clauses behind 'concurrent garble processes never interfere': " +
 			"(R17.1) lock typestate of the patched linker: in PatchLinker the file lock is taken before the stamp is read, the sources are patched, the linker is built and the stamp is written; on every error return the lock is released by the flag-guarded defer and on every success return it is handed to the caller, who defers the release after having run the linker; " +
 			"(R17.2) every file garble creates under a directory that other garble processes can see is created exclusively (O_CREATE|O_EXCL, CreateTemp, MkdirTemp), or is written under the linker lock, or goes through the content-addressed cache API; the reviewed in-place rewrite is the only exception; " +
-			"(R17.3) garble has no goroutines, so its unsynchronised scratch globals cannot race, and the per-process cache handle is a sync.OnceValues. " +
+			"(R17.3) garble has no goroutines, so its unsynchronised scratch globals cannot race, and the per-process cache handle is a sync.OnceValues; " +
+			"(R18.3, shared with C18) the directory a top-level command shares with its toolexec children is a fresh os.MkdirTemp, so two invocations never meet in it. " +
 			"Does not decide any actual interleaving, nor the atomicity of cmd/go, lockedfile or the cache library.",
 		perConfig: checkC17,
 	})
@@ -65,6 +66,7 @@ func underLinkerLock(w *World, at ssa.Instruction, pl *ssa.Function, lock *ssa.C
 func checkC17(c *Ctx) {
 	w := c.W
 	checkLockTypestate(c, "R17.1")
+	ruleFreshSharedDir(c)
 
 	// R17.2 ---------------------------------------------------------------
 	c.Rule("R17.2", "files visible to other garble processes are created exclusively, under the linker lock, or through the cache API", 20)
